@@ -16,6 +16,9 @@ import CookModel.Lemmas.TableFacts
 import CookModel.Lemmas.AdvQtyComment
 import CookModel.Lemmas.TextModeSwitch
 import CookModel.Lemmas.InsertWF
+import CookModel.Lemmas.LoosePads
+import CookModel.Lemmas.LooseValue
+import CookModel.Lemmas.UnitKeysBlank
 /-
   C17  Line endings, comments and blank space do not change the recipe.
 
@@ -2452,5 +2455,141 @@ example : SameRecipe (α := Rat) (fun c => c = ' ')
   rw [e1, e2] at h
   exact h
 -- ===== end w6c17docwf (part 3) =====
+
+-- ===== w7c17text =====
+/-! ## Wave 7 (notes/audit-C17.md, "wave 7"): filler inside VALUES.
+
+  Parser half: `numeric_value` / `range_value` skip blanks and comments between the tokens of a number,
+  so filler inserted next to a blank changes neither the number nor the decision "number or text"
+  (`C17_num_or_range_filler`); a text value is stored through `text_trimmed()`
+  (`C17_parse_value_filler`, arbitrary value tokens).  Recipe half: the blank material inside
+  components is padding of the round-trip grammar, and the recipe of a well-formed document does not
+  depend on any padding (`C17_component_pads_same_recipe`).  `C17_bundled_find_unit_blank`: the fact about
+  the bundled converter that the inline-quantity scan needs under appended blanks. -/
+
+/-- **`numeric_value` ignores filler next to a blank.**  `A ++ [w] ++ B` are value tokens, `w` a blank
+    or comment token among them (`w7vPad`), `F` further blank / comment tokens inserted behind it:
+    the reading (not a number / a number / a parse error such as division by zero) is the same —
+    `1 1/2` and `1 [- c -] 1/2`, `1 / 2` and `1 [- c -] / 2`, `1 kg` (no number) and `1 [- c -] kg`.
+    False without the blank `w`: `1.5` is a number, `1[- c -].5` is not. -/
+theorem C17_numeric_value_filler {α : Type} [Arith α] (A : List Tok) (w : Tok) (F B : List Tok) (hw : w7vPad w = true)
+    (hF : ∀ x ∈ F, w7vPad x = true) :
+    numericValue (α := α) (A ++ [w] ++ F ++ B) = numericValue (α := α) (A ++ [w] ++ B) :=
+  w7v_numericValue_filler A w F B hw hF
+
+/-- as soon as a blank or comment is left between the trimmed ends, `numeric_value` reads only the
+    tokens that are neither (`w7vLoose`: `int int / int` or `int / int`, nothing else) -/
+theorem C17_numeric_value_reads_visible_tokens {α : Type} [Arith α] (P Q M : List Tok) (b : Tok)
+    (hP : ∀ x ∈ P, w7vPad x = true) (hQ : ∀ x ∈ Q, w7vPad x = true)
+    (ha : ∀ t, (M ++ [b]).head? = some t → w7vPad t = false) (hb : w7vPad b = false)
+    (hin : (M ++ [b]).any w7vPad = true) :
+    numericValue (α := α) (P ++ (M ++ [b]) ++ Q) = w7vLoose ((M ++ [b]).filter notWsComment) :=
+  w7v_numericValue_loose P Q M b hP hQ ha hb hin
+
+/-- **… and so do `range_value` and their combination** (`range_value(..).or_else(numeric_value)`, the
+    value reader of `parse_value` and of `parse_advanced_quantity`), with RANGE_VALUES on or off: the
+    filler holds no `-`, so the split at the first `-` falls between the same tokens. -/
+theorem C17_num_or_range_filler {α : Type} [Arith α] (rangeExt : Bool) (A : List Tok) (w : Tok) (F B : List Tok)
+    (hw : w7vPad w = true) (hF : ∀ x ∈ F, w7vPad x = true) :
+    numOrRange (α := α) rangeExt (A ++ [w] ++ F ++ B) = numOrRange (α := α) rangeExt (A ++ [w] ++ B) :=
+  w7v_numOrRange_filler rangeExt A w F B hw hF
+
+/-- **`parse_value` with filler behind a blank, any value tokens**: the same value — number, range, or
+    text (stored through `text_trimmed()`, which collapses the blanks the filler leaves) — and as many
+    diagnostics pushed (`int-parse`, `division-by-zero`, `empty-value` on both sides or on neither).
+    `w` is a whitespace token of U+0020s, `F` comments and such tokens (`A17Filler`); both token lists
+    are adjacent runs as the lexer produces them; the two parser states share only character table and
+    extension set. -/
+theorem C17_parse_value_filler {α : Type} [Arith α] (s' s : BP α) (hcs : s'.cs = s.cs) (hext : s'.ext = s.ext)
+    (hsp : s.cs.uws ' ' = true) (A F B : List Tok) (w : Tok) (hw : w.kind = .ws) (hwt : w.text ≠ [])
+    (hwb : ∀ c ∈ w.text, c = ' ') (hF : ∀ t ∈ F, A17Filler t)
+    (hr' : RunAt (w7pStart (A ++ [w] ++ F ++ B) (offAt s'.toks s'.cur)) (A ++ [w] ++ F ++ B))
+    (hr : RunAt (w7pStart (A ++ [w] ++ B) (offAt s.toks s.cur)) (A ++ [w] ++ B)) :
+    (parseValue (α := α) (A ++ [w] ++ F ++ B) s').1.val = (parseValue (α := α) (A ++ [w] ++ B) s).1.val ∧
+    (parseValue (α := α) (A ++ [w] ++ F ++ B) s').2.evs.size - s'.evs.size =
+      (parseValue (α := α) (A ++ [w] ++ B) s).2.evs.size - s.evs.size :=
+  w7p_parseValue_filler s' s hcs hext hsp A F B w hw hwt hwb hF hr' hr
+
+/-- **Blank material inside components does not reach the recipe — well-formed recipes.**  Two
+    documents of the round-trip grammar (`DocWF` each) whose blocks agree up to ALL padding
+    (`DocItem.bare`: the blanks and block comments between the tokens of a number, around the `-` of a
+    range, at both ends of a value, behind `%`, behind a name, around `|`, inside empty braces, in an
+    intermediate-reference group, on section / `>>` lines; separators and leading blank lines are free
+    anyway) parse to the same recipe, in fact with EQUAL sections, tables, metadata and servings. -/
+theorem C17_component_pads_same_recipe {α : Type} [Arith α] (ws : Char → Bool) (env : Env) (pre' pre : List Tok)
+    (doc' doc : List (DocItem × List Tok)) (h' : DocWF α env pre' doc') (h : DocWF α env pre doc)
+    (hb : (doc'.map (·.1)).map DocItem.bare = (doc.map (·.1)).map DocItem.bare) :
+    SameRecipe ws (parseRecipe (α := α) env (render (pre' ++ docSpec doc')))
+      (parseRecipe (α := α) env (render (pre ++ docSpec doc))) := by
+  obtain ⟨c', c, e', e, hs, hi, hc, ht, hm, hq, hf, hv, hd⟩ := w7t_doc_pads_same (α := α) env pre' pre doc' doc h' h hb
+  rw [e', e]
+  refine ⟨?_, hd⟩
+  show SameCol ws c' c
+  exact ⟨by rw [hs]; exact LRel.refl_of (LooseSection.refl ws) _, hi, hc, ht, hq, hm,
+    by rw [hf]; exact OptRel.refl_of (A := A17FmSame) (fun _ => rfl) _, hv⟩
+
+/-- **No key of the bundled unit table is blank**, so `find_unit` of the empty string (of any string
+    of Unicode white space) is `None` for the bundled converter (generated table, 167 keys).  This is
+    what rejects the candidate `(n, "")` of the inline-quantity scan when blanks are appended behind a
+    final number (`take 2` → `take 2 `).  For a general `env` it is a HYPOTHESIS
+    (`∀ k, k.all env.cs.uws = true → env.findUnit k = none`); the converter without units satisfies it
+    trivially. -/
+theorem C17_bundled_find_unit_blank (k : List Char) (h : k.all realCharSpec.uws = true) : bundledFindUnit k = none :=
+  w7u_bundled_blank k h
+
+/-! non-vacuity -/
+example : bundledFindUnit [] = none ∧ bundledFindUnit "  ".toList = none ∧ (bundledFindUnit "kg".toList).isSome = true :=
+  ⟨C17_bundled_find_unit_blank [] rfl, C17_bundled_find_unit_blank _ (by decide +kernel), by decide +kernel⟩
+
+/-- `1 1/2` against `1 [- c -] 1/2`, and the tokens of `1 / 2` -/
+def C17_exNumToks : List Tok := [tk .int ['1'], tk .ws [' '], tk .int ['1'], tk .slash ['/'], tk .int ['2']]
+def C17_exNumToksF : List Tok :=
+  [tk .int ['1'], tk .ws [' '], tk .blockComment "[- c -]".toList, tk .ws [' '], tk .int ['1'], tk .slash ['/'], tk .int ['2']]
+
+example : numericValue (α := Rat) C17_exNumToksF = numericValue (α := Rat) C17_exNumToks :=
+  C17_numeric_value_filler [tk .int ['1']] (tk .ws [' ']) [tk .blockComment "[- c -]".toList, tk .ws [' ']]
+    [tk .int ['1'], tk .slash ['/'], tk .int ['2']] (by decide) (by decide)
+example : numericValue (α := Rat) C17_exNumToks = some (.ok (.number (.fraction 1 1 2 0))) := by
+  simp [numericValue, C17_exNumToks, trimTokens, tk, isWsComment, notWsComment, mixedNum, fracNum, parseU32, digitsToNat, u32Max]
+  rfl
+
+/-- `Add @oil{1 1/2%cup} now⏎` against `Add @oil{1 [- c -] 1/2 %cup} now⏎` -/
+def C17_exNumComp : AComp :=
+  { name := [tk .word "oil".toList], qty := some { val := .num (.mixed ['1'] ['1'] ['2']), unit := some [tk .word "cup".toList] } }
+def C17_exNumPad : CPad := { q := { v := { lo := { w := [tk .ws [' ']] } } } }
+def C17_exNumPadF : CPad :=
+  { q := { v := { lo := { w := [tk .ws [' '], tk .blockComment "[- c -]".toList, tk .ws [' ']] }, post := [tk .ws [' ']] } } }
+def C17_exNumDoc (p : CPad) : List (DocItem × List Tok) :=
+  [(.step [.text [tk .word "Add".toList, tk .ws [' ']], .ingredient C17_exNumComp p,
+           .text [tk .ws [' '], tk .word "now".toList]], [tk .newline ['\n']])]
+
+example : render ([] ++ docSpec (C17_exNumDoc C17_exNumPadF)) = "Add @oil{1 [- c -] 1/2 %cup} now\n".toList ∧
+    render ([] ++ docSpec (C17_exNumDoc C17_exNumPad)) = "Add @oil{1 1/2%cup} now\n".toList := by decide
+
+theorem C17_exNumDoc_wf (p : CPad)
+    (h1 : (∀ d ∈ C17_exNumDoc p, d.1.ok C17_toyEnv.cs C17_toyEnv.ext = true) ∧ (∀ d ∈ C17_exNumDoc p, d.1.simple = true) ∧
+      sepsOK ((C17_exNumDoc p).map (·.2)) = true ∧ WellSpelled C17_toyEnv.cs ([] ++ docSpec (C17_exNumDoc p)) ∧
+      (parseFrontmatter C17_toyEnv.cs (render ([] ++ docSpec (C17_exNumDoc p)))).isNone = true) :
+    DocWF Rat C17_toyEnv [] (C17_exNumDoc p) := by
+  obtain ⟨a, b, c, d, e⟩ := h1
+  refine ⟨by decide, a, b, ?_, ?_, c, d, by simpa using e⟩
+  · intro x hx
+    simp only [C17_exNumDoc, List.mem_cons, List.not_mem_nil, or_false] at hx
+    subst hx; trivial
+  · intro x hx
+    simp only [C17_exNumDoc, List.mem_cons, List.not_mem_nil, or_false] at hx
+    subst hx
+    intro sg hsg
+    simp only [List.mem_cons, List.not_mem_nil, or_false] at hsg
+    rcases hsg with rfl | rfl | rfl
+    · intro hh; exact absurd hh (by decide)
+    · trivial
+    · intro hh; exact absurd hh (by decide)
+
+example : SameRecipe (α := Rat) (fun c => c = ' ')
+    (parseRecipe C17_toyEnv (render ([] ++ docSpec (C17_exNumDoc C17_exNumPadF))))
+    (parseRecipe C17_toyEnv (render ([] ++ docSpec (C17_exNumDoc C17_exNumPad)))) :=
+  C17_component_pads_same_recipe _ C17_toyEnv [] [] _ _ (C17_exNumDoc_wf _ (by decide)) (C17_exNumDoc_wf _ (by decide)) rfl
+-- ===== end w7c17text =====
 
 end Cook
